@@ -21,6 +21,7 @@ import (
 	"go/types"
 	"os"
 	"path/filepath"
+	"sort"
 	"strconv"
 	"strings"
 
@@ -93,14 +94,24 @@ func main() {
 		fmt.Fprintln(os.Stderr, err)
 		os.Exit(2)
 	}
+	var sites []string
+	for k := range allSites {
+		sites = append(sites, k)
+	}
+	sort.Strings(sites)
+	os.WriteFile(filepath.Join(*out, "sites.txt"), []byte(strings.Join(sites, "\n")+"\n"), 0o644)
 	sj, _ := json.Marshal(stats)
 	os.WriteFile(filepath.Join(*out, "rewrite_stats.json"), sj, 0o644)
 	fmt.Printf("rewrote %d files: %s\n", len(overlay), sj)
 }
 
+var allSites = map[string]bool{}
+
 func (r *rw) site(n ast.Node) *ast.BasicLit {
 	p := r.fset.Position(n.Pos())
-	return &ast.BasicLit{Kind: token.STRING, Value: strconv.Quote(fmt.Sprintf("%s:%d", r.fname, p.Line))}
+	s := fmt.Sprintf("%s:%d", r.fname, p.Line)
+	allSites[s] = true
+	return &ast.BasicLit{Kind: token.STRING, Value: strconv.Quote(s)}
 }
 
 func (r *rw) tmp(prefix string) *ast.Ident {
